@@ -17,8 +17,12 @@ use vcore::exprgen;
 use vcore::run::{Run, guarded, machinery_failure, spaced_samples};
 use vcore::synt::{self, Node, Tok};
 
-const FILLERS: [(&str, &str); 7] = [
+const FILLERS: [(&str, &str); 10] = [
   ("space", " "),
+  // a carriage return that is NOT part of a CRLF: whitespace that stays on the line
+  ("lone-cr", "\r"),
+  ("cr-space-cr", "\r \r"),
+  ("block-comment-with-cr", " /* a\rb */ "),
   ("newline", "\n"),
   ("crlf", "\r\n"),
   ("tab", "\t"),
@@ -311,7 +315,7 @@ fn main() {
     json!({
       "evaluations": evaluated.load(Ordering::Relaxed),
       "distinct_nontrivial": distinct,
-      "rule": "layout variants of every base text: original, 7 uniform fillers, one long line, and every single inter-token gap replaced by each of 7 fillers (space, LF, CRLF, tab, mixed, multi-line block comment, line comment); a variant counts when it parses; distinct = distinct (base text, filler kind) combinations checked",
+      "rule": "layout variants of every base text: original, 10 uniform fillers, one long line, and every single inter-token gap replaced by each of 10 fillers (space, lone CR, CR-space-CR, block comment containing a CR, LF, CRLF, tab, mixed, multi-line block comment, line comment); a variant counts when it parses; distinct = distinct (base text, filler kind) combinations checked",
       "samples": samples,
       "base_texts": bases.len(),
       "generated_variants": all_variants.len(),
